@@ -6,6 +6,7 @@ import (
 	"bytes"
 	"context"
 	"fmt"
+	"github.com/fasthttp/websocket"
 	"io"
 	"net"
 	"net/http"
@@ -839,6 +840,113 @@ func TestHTTPBodies(t *testing.T) {
 		}
 	}
 	ev.S.Exhaustive("http-bodies", true)
+}
+
+// TestWebSocketFragments: a conforming websocket peer that is not the hprose client: it sends each request as a
+// message split into fragments of 1..7 bytes (the 4-byte index header then straddles frames), and messages shorter
+// than the header. The service must be handed exactly the body, the answer must carry the request's index, and a
+// message without a complete header must never be delivered or answered as a success.
+func TestWebSocketFragments(t *testing.T) {
+	setup()
+	for _, kind := range []string{"ws", "wsfast"} {
+		ep := byKind[kind]
+		for _, frag := range []int{1, 2, 3, 4, 5, 7, 64, 4096} {
+			for _, bodyLen := range []int{0, 1, 3, 12, 100, 5000} {
+				if !mine() {
+					continue
+				}
+				canon := fmt.Sprintf("%s: request of %d body bytes sent as websocket fragments of %d bytes", kind, bodyLen, frag)
+				ev.S.Begin("ws-fragments", canon)
+				serial.Lock()
+				body := echo.Gen(uint32(bodyLen*31+frag), bodyLen)
+				if bodyLen > 0 && body[0] == 'C' {
+					body[0] = 'D'
+				}
+				if bodyLen >= 4 && string(body[:4]) == string(echo.Magic) {
+					body[1] = 'x'
+				}
+				ep.svc.Take()
+				problem := ""
+				d := websocket.Dialer{Subprotocols: []string{"hprose"}, HandshakeTimeout: 2 * time.Second, WriteBufferSize: frag}
+				c, _, err := d.Dial(ep.server.URL, nil)
+				if err != nil {
+					serial.Unlock()
+					t.Fatalf("ws dial: %v", err)
+				}
+				const index = 0x01020304
+				w, err := c.NextWriter(websocket.BinaryMessage)
+				if err == nil {
+					_, err = w.Write(wire.WSFrame(index, body, false))
+					if err == nil {
+						err = w.Close()
+					}
+				}
+				if err != nil {
+					problem = "harness: cannot send: " + err.Error()
+				}
+				c.SetReadDeadline(time.Now().Add(time.Second))
+				mt, msg, rerr := c.ReadMessage()
+				seen := waitSeen(ep.svc, 20*time.Millisecond)
+				c.Close()
+				switch {
+				case problem != "":
+				case len(seen) != 1 || !bytes.Equal(seen[0], body):
+					d := ""
+					if len(seen) > 0 {
+						d = firstDiff(body, seen[0])
+					}
+					problem = fmt.Sprintf("the service was handed %d requests for one fragmented message; %s", len(seen), d)
+				case rerr != nil || mt != websocket.BinaryMessage || len(msg) < 4:
+					problem = fmt.Sprintf("no answer to a fragmented request: %v", rerr)
+				default:
+					idx, errFlag := wire.ParseWSHeader(msg[:4])
+					if idx != index || errFlag || !bytes.Equal(msg[4:], produced(body)) {
+						problem = fmt.Sprintf("the answer carries index %#x (error flag %v, %d body bytes) for the request with index %#x", idx, errFlag, len(msg)-4, index)
+					}
+				}
+				serial.Unlock()
+				ev.S.Case("ws-fragments", canon, true, "ws-fragments="+kind)
+				if !strings.HasPrefix(problem, "harness:") {
+					report(t, "ws-fragments", "TestWebSocketFragments", canon, problem)
+				}
+			}
+		}
+		for short := 0; short < 4; short++ {
+			if !mine() {
+				continue
+			}
+			canon := fmt.Sprintf("%s: binary message of %d bytes (shorter than the index header)", kind, short)
+			ev.S.Begin("ws-fragments", canon)
+			serial.Lock()
+			ep.svc.Take()
+			d := websocket.Dialer{Subprotocols: []string{"hprose"}, HandshakeTimeout: 2 * time.Second}
+			c, _, err := d.Dial(ep.server.URL, nil)
+			if err != nil {
+				serial.Unlock()
+				t.Fatalf("ws dial: %v", err)
+			}
+			c.WriteMessage(websocket.BinaryMessage, []byte{1, 2, 3}[:short])
+			c.SetReadDeadline(time.Now().Add(150 * time.Millisecond))
+			mt, msg, rerr := c.ReadMessage()
+			seen := waitSeen(ep.svc, 20*time.Millisecond)
+			c.Close()
+			problem := ""
+			if len(seen) > 0 {
+				problem = fmt.Sprintf("the service was handed a %d-byte request from a message without a complete header", len(seen[0]))
+			} else if rerr == nil && mt == websocket.BinaryMessage && len(msg) >= 4 {
+				if _, errFlag := wire.ParseWSHeader(msg[:4]); !errFlag {
+					problem = fmt.Sprintf("a message without a complete header was answered with a success response of %d bytes", len(msg)-4)
+				}
+			}
+			serial.Unlock()
+			ev.S.Case("ws-fragments", canon, true, "ws-short="+kind)
+			report(t, "ws-fragments", "TestWebSocketFragments", canon, problem)
+		}
+		if p := sentinel(ep, 55); p != "" {
+			report(t, "ws-fragments", "TestWebSocketFragments", kind+" after the fragmented and short messages", p)
+		}
+	}
+	ev.S.Exhaustive("ws-fragments", true)
 }
 
 // ---- hand-crafted responses against the real client
